@@ -128,3 +128,22 @@ Definition lose_stop (e b i : Z) : Z := e * b * (i / b) + (i mod b) + (e - 1) * 
 (* _trace_keep: dims ~ [a; s; b]; reduced row i <-> full rows b*i + s*b*k + y, k < a, y < b *)
 Definition keep_row (s b i k y : Z) : Z := b * i + s * b * k + y.
 Definition ravel3 (d1 d2 d3 x y z : Z) : Z := (x * d2 + y) * d3 + z.
+
+(* ---- _dim_map_nd strides ----------------------------------------------------
+     strides = [1]
+     for sz in szs[-1:0:-1]: strides.insert(0, sz * strides[0])                 *)
+Fixpoint nd_strides_loop (rev_tail : list Z) (acc : list Z) : list Z :=
+  match rev_tail with
+  | [] => acc
+  | sz :: t => nd_strides_loop t (sz * hd 1 acc :: acc)
+  end.
+Definition nd_strides (szs : list Z) : list Z := nd_strides_loop (rev (tl szs)) [1].
+
+(* row-major strides: stride of axis i = product of the later axis lengths *)
+Fixpoint row_major (szs : list Z) : list Z :=
+  match szs with [] => [] | _ :: t => prodZ t :: row_major t end.
+
+Fixpoint dotZ (a b : list Z) : Z :=
+  match a, b with x :: a', y :: b' => x * y + dotZ a' b' | _, _ => 0 end.
+(* flat index of a coordinate tuple as _dim_map_nd computes it *)
+Definition nd_flat (szs coo : list Z) : Z := dotZ coo (nd_strides szs).
